@@ -394,6 +394,7 @@ func Check(p *core.Prog, r *core.Report, pr Pair) {
 				return
 			}
 		}
+		alphaRename(cb, fd, pr.From != "")
 		t, err := tokens(cb)
 		if err != nil {
 			r.Und(pr.Rule, key, p.Pos(fd.Pos()), err.Error())
@@ -453,4 +454,77 @@ func Check(p *core.Prog, r *core.Report, pr Pair) {
 	}
 	sort.Strings(used)
 	r.Ok(pr.Rule, key, p.Pos(fa.Pos()), fmt.Sprintf("canonical forms agree (%d tokens) up to %v", len(a), used))
+}
+
+// alphaRename renames parameters and locally declared variables to L1, L2, ...
+// in order of declaration, so that a rename of a local in one sibling only is
+// not a difference. Drop-projected declarations are already gone, so both
+// siblings number the surviving locals alike.
+func alphaRename(body *ast.BlockStmt, fd *ast.FuncDecl, fragment bool) {
+	names := map[string]string{}
+	n := 0
+	decl := func(name string) {
+		if name == "_" || name == "recv" {
+			return
+		}
+		if _, ok := names[name]; !ok {
+			n++
+			names[name] = fmt.Sprintf("L%d", n)
+		}
+	}
+	if !fragment {
+		for _, f := range fd.Type.Params.List {
+			for _, id := range f.Names {
+				decl(id.Name)
+			}
+		}
+	}
+	ast.Inspect(body, func(m ast.Node) bool {
+		switch x := m.(type) {
+		case *ast.AssignStmt:
+			if x.Tok == token.DEFINE {
+				for _, l := range x.Lhs {
+					if id, ok := l.(*ast.Ident); ok {
+						decl(id.Name)
+					}
+				}
+			}
+		case *ast.RangeStmt:
+			if x.Tok == token.DEFINE {
+				if id, ok := x.Key.(*ast.Ident); ok {
+					decl(id.Name)
+				}
+				if id, ok := x.Value.(*ast.Ident); ok {
+					decl(id.Name)
+				}
+			}
+		case *ast.ValueSpec:
+			for _, id := range x.Names {
+				decl(id.Name)
+			}
+		}
+		return true
+	})
+	ast.Inspect(body, func(m ast.Node) bool {
+		switch x := m.(type) {
+		case *ast.SelectorExpr:
+			// rename only the operand, never the selected field or method
+			ast.Inspect(x.X, func(k ast.Node) bool {
+				if id, ok := k.(*ast.Ident); ok {
+					if to, ok := names[id.Name]; ok {
+						id.Name = to
+					}
+				}
+				return true
+			})
+			return false
+		case *ast.KeyValueExpr:
+			return true
+		case *ast.Ident:
+			if to, ok := names[x.Name]; ok {
+				x.Name = to
+			}
+		}
+		return true
+	})
 }
